@@ -117,6 +117,9 @@ pub struct MSub {
     pub lenient_until: usize,
     /// retained replay owed to this (new, non-shared) subscription
     pub retained_due: bool,
+    /// the replay may already have happened on an earlier connection of the session: it is
+    /// accepted once more but not demanded
+    pub retained_optional: bool,
     /// acceptance index when the subscription was made (start of the retained window)
     pub made_at: usize,
     /// retention may have been exceeded on this stream: only safety clauses apply
@@ -436,7 +439,8 @@ impl Model {
                 // before now may or may not be delivered again
                 let lenient = if s.qos == 0 { now } else { hi };
                 let mut s2 = s.clone();
-                s2.retained_due = false;
+                // a replay that has not provably happened yet may still happen once
+                s2.retained_optional = s.retained_due;
                 if std::env::var_os("VERIF_TRACE2").is_some() {
                     eprintln!("close serial={serial} sub {:?} i={i} resume lo={lo} hi={hi} acked={} fwds={} states={} attr0={:?} fwd0={:?}", s.filter, c.acked_fwds, c.fwds.len(), c.frontier.len(), c.frontier[0].attr.iter().take(5).collect::<Vec<_>>(), c.fwds.iter().take(3).collect::<Vec<_>>());
                 }
@@ -849,6 +853,7 @@ impl Model {
                 end: None,
                 lenient_until: 0,
                 retained_due: group.is_none(),
+                retained_optional: false,
                 made_at: now,
                 relaxed: false,
                 qos_uncertain: false,
